@@ -22,7 +22,8 @@ class A(Adapter):
 
         # (rows, cols, agents, time_limit or None, penalty)
         sizes = [(10, 10, 3, None, 0.5), (5, 11, 2, None, 0.5), (11, 5, 2, None, 0.25), (6, 7, 1, 7, 0.5),
-                 (3, 4, 3, 3, 0.1), (2, 5, 2, 1, 1.0)]
+                 (3, 4, 3, 3, 0.1), (2, 5, 2, 1, 1.0),
+                 (4, 5, 2, 6, 0.0)]     # no step penalty at all (a falsy argument value is still the value asked for)
         if tier != "quick":
             sizes += [(4, 4, 2, 2, 0.5), (7, 6, 4, None, 0.0), (15, 21, 3, 60, 0.5), (21, 8, 1, None, 0.5),
                       (2, 2, 2, None, 0.5), (9, 3, 2, 200, 0.5)]
